@@ -1,4 +1,4 @@
-"""C14 -- digests equal their standards for every message and every chunking (MD5, SHA-1, SHA-256, SHA-512)."""
+"""C14 -- digests equal their standards for every message and every chunking (MD5, SHA-1, SHA-256, SHA-512); portable SipHash-2-4."""
 import os, subprocess, sys
 from vlib import Job, VERIF
 
@@ -12,6 +12,10 @@ def prepare():
     p = subprocess.run([sys.executable, os.path.join(VERIF, 'spec', 'validate_spec.py'), SPECDIR], stdout=subprocess.PIPE, stderr=subprocess.STDOUT)
     if p.returncode != 0:
         print('UNDECIDED: reference text of the standards failed its own sanity check: ' + p.stdout.decode()[-500:]); sys.exit(2)
+    exe = os.path.join(SPECDIR, 'validate_siphash')
+    p = subprocess.run('gcc -O1 -I%s %s -o %s && %s' % (os.path.join(VERIF, 'spec'), os.path.join(VERIF, 'spec', 'validate_siphash.c'), exe, exe), shell=True, stdout=subprocess.PIPE, stderr=subprocess.STDOUT)
+    if p.returncode != 0:
+        print('UNDECIDED: SipHash reference text failed the published test vectors: ' + p.stdout.decode()[-500:]); sys.exit(2)
 
 
 def jobs(tier):
@@ -37,6 +41,12 @@ def jobs(tier):
           what='%s::finalize: exactly the standard padding for every curlen_ / length_, one or two blocks, output in the standard byte order' % nm)
         J('compress', 'compress', 'c_compress', [COMP[dg]], stub=False, unwind=82, backend='cvc5', timeout=3000, tier='thorough',
           what='%s compression function == the transcription of the standard for every state and block (word-level SMT back end)' % nm)
+    # SipHash-2-4, portable implementation: one job per message length 0..23 (0-2 full blocks, every tail length)
+    for n in range(0, 24):
+        js.append(Job(name='siphash_plain_n%d' % n, shim='siphash', contract='c14_siphash.c', harness='h_siphash_n%d' % n, enforce=['c_siphash'], defines=['FIX_LEN=%d' % n],
+                      functions=[r'tlx::siphash_plain\('], include_dirs=[os.path.join(VERIF, 'spec')], unwind=26, timeout=900, backend=os.environ.get('SIP_BE', 'cvc5'), tier='quick',
+                      label='complete for messages of %d bytes: all keys, all contents' % n,
+                      what='siphash_plain on a %d-byte message equals SipHash-2-4 of the paper for every key and message' % n))
     return js
 
 
@@ -45,6 +55,6 @@ META = {
     'assumptions': ['process / finalize contracts are enforced by rewriting (assert mode: goto-instrument --dfcc runs out of memory on the unwound block loops), so their assigns clauses are not checked', 'reference text = spec/digest_spec.h (my transcription of RFC 1321 / FIPS 180-4, constants generated from their definitions, validated against hashlib on every run)',
                     'composition step (stated): compress == standard, process feeds the stream in block order, finalize feeds the standard padding => digest == standard for every chunking'],
     'not_decided': ['process() for a single call of more than two blocks + 7 bytes (longer inputs: same loop body)', 'digest()/digest_hex()/xxx_hex() string wrappers (std::string + hexdump: see C19)',
-                    'SipHash (portable and SSE2) is not under contract in this version', 'compress equivalence is in the thorough tier (cvc5)'],
+                    'siphash_sse2 (vector intrinsics are outside the translator) and therefore tlx::siphash() where it dispatches to SSE2; siphash_plain for messages longer than 23 bytes (same loop body)', 'compress equivalence is in the thorough tier (cvc5)'],
     'explanation': 'layered contracts: init == H0, process == stream-to-block contract with a ghost stream offset, finalize == padding contract, compress == standard (thorough)',
 }
